@@ -22,7 +22,7 @@ var (
 	kinds     = []string{"default", "first", "even"}
 	defKinds  = []string{"hdr", "ftr", "hdrpn", "ftrpn", "hdrfmt", "ftrfmt"}
 	aligns    = []string{"", "left", "center", "right", "both"}
-	colors    = []string{"", "FF0000", "8e8e8e", "000000", "1F4E79", "00b050"}
+	colors    = []string{"", "FF0000", "8e8e8e", "000000", "1F4E79", "00b050", "#C00000", "#1f4e79"} // the last two: the CSS spelling of the same six digits
 	fonts     = []string{"", "Arial", "宋体", "Times New Roman", "Courier New", "微软雅黑"}
 	hilites   = []string{"", "", "yellow", "green", "cyan", "darkYellow"}
 	bigSizes  = []int{73, 96, 100, 127, 128, 255, 256, 500, 1638} // w:sz holds half points up to 3276
@@ -182,6 +182,13 @@ func genStart(t *rapid.T) *Start {
 		folder = rapid.SampledFrom(folders).Draw(t, "folder") + "/"
 	}
 	rot := rapid.IntRange(1, 2).Draw(t, "rot")
+	// numbered parts need not be numbered densely: a producer that deleted a header keeps the numbers of the others
+	// (header1.xml, header3.xml), and a document that lost its default header keeps the first-page/even ones
+	sparse := (naming == "word" || naming == "sub") && rapid.IntRange(0, 2).Draw(t, "sparse") > 0
+	noDefault := sparse && rapid.Bool().Draw(t, "nodefault")
+	if sparse {
+		n = rapid.SampledFrom([]int{2, 3, 4, 4, 5, 6}).Draw(t, "nslots-sparse")
+	}
 	st := &Start{}
 	// what the package has besides the header/footer parts: no styles part at all (ids count from rId1), further
 	// relationships in front (ids of the header/footer relationships past rId9/rId10, seldom past rId64)
@@ -196,6 +203,9 @@ func genStart(t *rapid.T) *Start {
 	}
 	var protos []proto
 	for _, i := range idx[:n] {
+		if noDefault && allKeys[i].Kind == "default" {
+			continue
+		}
 		protos = append(protos, proto{k: allKeys[i]})
 	}
 	nEarly := 0
@@ -226,6 +236,39 @@ func genStart(t *rapid.T) *Start {
 	} else {
 		protos = append(protos, early...)
 	}
+	// the numbers of the numbered parts, per side, in creation order: 1..k, or (sparse) 1..k+g without g of them
+	numsOf := func(footer bool, label string) []int {
+		k := 0
+		for _, p := range protos {
+			if p.k.Footer == footer {
+				k++
+			}
+		}
+		total := k
+		if sparse && k > 0 {
+			total = k + rapid.SampledFrom([]int{1, 1, 1, 2}).Draw(t, label+"gaps")
+		}
+		all := make([]int, total)
+		for i := range all {
+			all[i] = i + 1
+		}
+		if total == k {
+			return all
+		}
+		// drop total-k numbers, never the highest one (a gap is a number below an existing one)
+		drop := map[int]bool{}
+		for _, v := range rapid.Permutation(all[:total-1]).Draw(t, label+"gap")[:total-k] {
+			drop[v] = true
+		}
+		var out []int
+		for _, v := range all {
+			if !drop[v] {
+				out = append(out, v)
+			}
+		}
+		return out
+	}
+	hdrNums, ftrNums := numsOf(false, "h"), numsOf(true, "f")
 	nh, nf := 0, 0
 	for j, p := range protos {
 		k := p.k
@@ -276,7 +319,12 @@ func genStart(t *rapid.T) *Start {
 					break
 				}
 			}
-		default: // "word", "sub": numbered in creation order
+		default: // "word", "sub": numbered in creation order (with gaps when sparse)
+			if k.Footer {
+				num = ftrNums[num-1]
+			} else {
+				num = hdrNums[num-1]
+			}
 			s.Part = fmt.Sprintf("%s%s%d.xml", folder, what, num)
 		}
 		switch tgtMode {
@@ -364,6 +412,15 @@ func genCase(t *rapid.T) Case {
 		if len(have) > 0 {
 			focus[0] = rapid.SampledFrom(have).Draw(t, "focusexisting")
 		}
+		var lacks []string
+		for _, k := range allKeys {
+			if _, ok := c.Start.slot(k); !ok {
+				lacks = append(lacks, k.Kind)
+			}
+		}
+		if len(lacks) > 0 && rapid.Bool().Draw(t, "focusmissing") {
+			focus[1] = rapid.SampledFrom(lacks).Draw(t, "focuslacking")
+		}
 	}
 	// one history in 40: one slot is defined again and again (11-22 times), with a few other steps in between
 	if rapid.IntRange(0, 39).Draw(t, "burst") == 39 {
@@ -415,7 +472,7 @@ func fixedCases() []Case {
 func TestC11(t *testing.T) {
 	kit.Main(t, kit.Spec[Case]{
 		ID: "C11", Level: "exploration",
-		Rule: "history of 1-14 (thorough 1-24) calls: the six header/footer definition entry points (AddHeader, AddFooter, Add{Header,Footer}WithPageNumber, AddFormatted{Header,Footer}) x {default, first, even} with XML-expressible texts (ascii, unicode, XML metacharacters, edge/only white space, empty), formats (bold, italic, underline, strike, size, colour, font via FontFamily / FontName alias / both, highlight, nil format, nil config) and alignments, the kind drawn mostly from a 2-element focus set so that slots are redefined; interleaved with SetDifferentFirstPage, page-setting calls, images, list items, paragraphs, save->OpenFromMemory (continue on the reopened document) and a no-data LoadTemplateFromDocument+RenderTemplateToDocument (judged; continue on the result in half of the cases), and a render-twice step: one LoadTemplateFromDocument, two RenderTemplateToDocument calls, each rendered document then receives 1-3 further calls of its own (definitions over all kinds, image, list, paragraph, page settings; renders and extensions ordered A B xA xB / A xA B xB / alternating) and only then both are judged, each against the template's model plus its own calls; the history continues on the template or on either rendered document. Every document a render step leaves behind (template or rendered) is judged once more, against the model it had, at the end of the history. One history in three starts, instead of document.New(), from a document of another producer (written by the harness with string templates, opened with OpenFromMemory or Open) that defines any subset of the six slots (0-6), in parts named like Word names them (header1..n.xml / footer1..n.xml in creation order, the number saying nothing about the kind), like the library does, with the library's names attached to other kinds, with free names, or in a sub-folder of word/ (word/headers/header1.xml, word/parts/hf/...); relationship targets spelt relative (header1.xml), with ./, as absolute part names (/word/header1.xml) or through the parent folder (../word/header1.xml), uniformly or mixed; relationship ids contiguous, with gaps or not of the rIdN form, the styles relationship first/last and rId1 or not; the references of w:sectPr in any order; parts with a relationship part and a picture of their own; parts that have a relationship but no reference (such a kind is not defined). On such a document the focus set holds a kind the document defines, so that the history both redefines existing kinds and defines missing ones through all six entry points. Such a package further varies: no styles part and no styles relationship at all (1 in 4; the relationship ids then count from rId1, so that a header/footer relationship is rId1); 0-9, seldom 61-63 further relationships (external hyperlinks) in front of the header/footer ones (ids past rId9/rId10, past rId64); more than one section (1 in 3: 1-3, seldom 10 sections in front of the last one, each with a w:sectPr inside the w:pPr of its last paragraph that references 0-3 header/footer parts of its own - up to header13.xml - and sometimes a part the last section references too; the model follows the body-level w:sectPr, a kind that only an earlier section references is left open until a call defines it); the content of a part (text in one run, split over two runs, over two paragraphs, followed by a PAGE field as w:fldSimple or as begin/instrText/separate/result/end - such a kind counts as defined with a page number). Texts: 1 in 30 is built from strings the library and the format use themselves (header1.xml, rId1, default, PAGE, the wording around the page number ...), 1 in 60 is long (200-2000 characters, also of multi-byte characters); 1 formatted size in 20 lies above 72 pt (73 ... 1638). One history in 40 defines one slot 11-22 times in a row (with reopen/render/image steps in between). A twin step makes a second document of the process the way the first was made (document.New(), or the same package opened once more), gives it 1-3 calls of its own and judges it against its own model; the first document is judged at its next definition and at the end, the twin again at the end. Reference model: slot (header|footer x kind) -> most recent definition (call, or the opened document's). The package is saved and judged with an independent zip/XML reader after every definition, open, reopen, render and at the end. non-trivial = >=2 definition calls and (some slot defined more than once, or a definition carried over a reopen/render); distinct = distinct sequence of (start layout, entry point, kind, page-number/format/empty flags, other op kinds)",
+		Rule: "history of 1-14 (thorough 1-24) calls: the six header/footer definition entry points (AddHeader, AddFooter, Add{Header,Footer}WithPageNumber, AddFormatted{Header,Footer}) x {default, first, even} with XML-expressible texts (ascii, unicode, XML metacharacters, edge/only white space, empty), formats (bold, italic, underline, strike, size, colour as six hex digits in either case or - one non-empty colour in 3.5 - in the CSS spelling #RRGGBB, font via FontFamily / FontName alias / both, highlight, nil format, nil config) and alignments, the kind drawn mostly from a 2-element focus set so that slots are redefined; interleaved with SetDifferentFirstPage, page-setting calls, images, list items, paragraphs, save->OpenFromMemory (continue on the reopened document) and a no-data LoadTemplateFromDocument+RenderTemplateToDocument (judged; continue on the result in half of the cases), and a render-twice step: one LoadTemplateFromDocument, two RenderTemplateToDocument calls, each rendered document then receives 1-3 further calls of its own (definitions over all kinds, image, list, paragraph, page settings; renders and extensions ordered A B xA xB / A xA B xB / alternating) and only then both are judged, each against the template's model plus its own calls; the history continues on the template or on either rendered document. Every document a render step leaves behind (template or rendered) is judged once more, against the model it had, at the end of the history. One history in three starts, instead of document.New(), from a document of another producer (written by the harness with string templates, opened with OpenFromMemory or Open) that defines any subset of the six slots (0-6), in parts named like Word names them (header1..n.xml / footer1..n.xml in creation order, the number saying nothing about the kind), like the library does, with the library's names attached to other kinds, with free names, or in a sub-folder of word/ (word/headers/header1.xml, word/parts/hf/...); relationship targets spelt relative (header1.xml), with ./, as absolute part names (/word/header1.xml) or through the parent folder (../word/header1.xml), uniformly or mixed; relationship ids contiguous, with gaps or not of the rIdN form, the styles relationship first/last and rId1 or not; the references of w:sectPr in any order; parts with a relationship part and a picture of their own; parts that have a relationship but no reference (such a kind is not defined). On such a document the focus set holds a kind the document defines and (one in two) a kind it lacks, so that the history both redefines existing kinds and defines missing ones through all six entry points. Such a package further varies: no styles part and no styles relationship at all (1 in 4; the relationship ids then count from rId1, so that a header/footer relationship is rId1); 0-9, seldom 61-63 further relationships (external hyperlinks) in front of the header/footer ones (ids past rId9/rId10, past rId64); more than one section (1 in 3: 1-3, seldom 10 sections in front of the last one, each with a w:sectPr inside the w:pPr of its last paragraph that references 0-3 header/footer parts of its own - up to header13.xml - and sometimes a part the last section references too; the model follows the body-level w:sectPr, a kind that only an earlier section references is left open until a call defines it); numbered parts whose numbers have gaps (two word-named or sub-folder layouts in three: one or two numbers below the highest one are unused - header1.xml + header3.xml - as after a producer deleted a part; half of these documents define no default header/footer at all, so that the name the library uses for a missing kind, header1.xml / footer1.xml, belongs to another kind while the numbering is not dense); the content of a part (text in one run, split over two runs, over two paragraphs, followed by a PAGE field as w:fldSimple or as begin/instrText/separate/result/end - such a kind counts as defined with a page number). Texts: 1 in 30 is built from strings the library and the format use themselves (header1.xml, rId1, default, PAGE, the wording around the page number ...), 1 in 60 is long (200-2000 characters, also of multi-byte characters); 1 formatted size in 20 lies above 72 pt (73 ... 1638). One history in 40 defines one slot 11-22 times in a row (with reopen/render/image steps in between). A twin step makes a second document of the process the way the first was made (document.New(), or the same package opened once more), gives it 1-3 calls of its own and judges it against its own model; the first document is judged at its next definition and at the end, the twin again at the end. Reference model: slot (header|footer x kind) -> most recent definition (call, or the opened document's). The package is saved and judged with an independent zip/XML reader after every definition, open, reopen, render and at the end. non-trivial = >=2 definition calls and (some slot defined more than once, or a definition carried over a reopen/render); distinct = distinct sequence of (start layout, entry point, kind, page-number/format/empty flags, other op kinds)",
 		Gen:  genCase, Run: run, Findings: findings, Fixed: fixedCases,
 		MustSee: map[string]float64{"repeat-kind": 0.4, "reopen": 0.3, "render": 0.15, "render-twice": 0.1, "render-twice:both-add-a-part,different": 0.03, "render-twice:both-define-a-new-kind": 0.02, "redefine-after-reopen-or-render": 0.1, "page-number": 0.3, "formatted": 0.3,
 			"all-three-kinds": 0.1, "definition-carried-over-reopen-or-render": 0.3, "foreign-start": 0.2, "foreign-start:word-part-names": 0.1,
@@ -425,9 +482,10 @@ func TestC11(t *testing.T) {
 			"foreign-start:multi-section": 0.05, "foreign-start:multi-section:definition-call": 0.04, "foreign-start:multi-section:earlier-section-shares-a-part-with-the-last": 0.01, "foreign-start:multi-section:ten-or-more-sections": 0.003,
 			"foreign-start:no-styles-part": 0.04, "foreign-start:no-styles-part:definition-call": 0.03, "foreign-start:header-footer-relationship-is-rId1": 0.01, "foreign-start:header-footer-id-past-rId9": 0.05,
 			"foreign-start:more-than-64-relationships": 0.01, "foreign-start:kind-defined-with-page-field": 0.05, "foreign-start:redefine-existing-kind:part-with-page-field": 0.02,
+			"formatted:colour-in-css-spelling": 0.06, "foreign-start:part-numbers-with-gaps": 0.04, "foreign-start:define-missing-kind:library-name-taken": 0.01, "foreign-start:define-missing-kind:library-name-taken:part-numbers-with-gaps": 0.002,
 			"twin-document": 0.05, "twin-document:both-have-definitions": 0.03, "one-kind-defined-more-than-10-times": 0.008, "text:" + clsOwn: 0.05, "text:long": 0.02},
 		Assumptions: []string{
-			"texts are drawn from the XML-expressible classes without template syntax (identity of text is compared); colours are 6-digit hex as documented; sizes 1-72 pt",
+			"texts are drawn from the XML-expressible classes without template syntax (identity of text is compared); colours are 6-digit hex as documented, also written the CSS way with a leading '#' (the spelling the paragraph calls accept for the same TextFormat and callers of the library use): the colour asked for is the six digits, which is what w:color/@w:val must hold (compared case-insensitively; '#' is not part of a hex colour value); sizes 1-72 pt",
 			"the wording around the page number is not documented: with showPageNum the visible text must contain the caller's text contiguously and a PAGE field must be present",
 			"a formatted call without alignment may leave w:jc absent or left/start",
 			"documents of another producer are minimal valid packages (main part word/document.xml, header/footer parts below word/, plain ASCII header texts, unique relationship ids, with or without a styles part, one or several sections); every spelling of a relationship target the generator uses names the same part by the OPC resolution rules (relative to the folder of the source part, absolute when it starts with /), and the saved package is judged with the same rules",
